@@ -68,11 +68,15 @@ def parse_graph(p):
     cls = p.cls("IMAPClientCommand")
     seen = {}
     todo = [root]
+    edges = PARSE_EDGES
+    edges.clear()
     while todo:
         fi = todo.pop()
         if fi.key in seen:
             continue
         seen[fi.key] = fi
+        before = len(todo)
+        _cur = fi
         for n in body_walk(fi.node):
             # self.<method>(..) and bound-method references self._p_x passed as callbacks
             if isinstance(n, ast.Attribute) and isinstance(n.value, ast.Name) and n.value.id == "self" and n.attr in cls.methods:
@@ -93,7 +97,70 @@ def parse_graph(p):
                         for g in p.functions.values():
                             if g.cls is None and g.parent is None and g.name == f.id and g.module in ("parse", "utils", "fetch", "search"):
                                 todo.append(g)
+        edges[fi.key] = {t.key for t in todo[before:]}
     return seen
+
+
+PARSE_EDGES: dict[str, set[str]] = {}
+
+
+def _cycles(edges):
+    """Strongly connected components with a cycle (Tarjan, iterative enough for ~100 nodes via recursion)."""
+    import sys
+
+    sys.setrecursionlimit(max(sys.getrecursionlimit(), 5000))
+    index, low, onst, st, out = {}, {}, set(), [], []
+
+    def go(v):
+        index[v] = low[v] = len(index)
+        st.append(v)
+        onst.add(v)
+        for w in sorted(edges.get(v, ())):
+            if w not in index:
+                go(w)
+                low[v] = min(low[v], low[w])
+            elif w in onst:
+                low[v] = min(low[v], index[w])
+        if low[v] == index[v]:
+            comp = []
+            while True:
+                w = st.pop()
+                onst.discard(w)
+                comp.append(w)
+                if w == v:
+                    break
+            if len(comp) > 1 or v in edges.get(v, ()):
+                out.append(sorted(comp))
+
+    for v in sorted(edges):
+        if v not in index:
+            go(v)
+    return out
+
+
+def _root_catches(p, fam) -> set[str]:
+    """Exception names that parse() itself converts into a BadCommand: handlers of a try whose body calls self._parse()
+    and whose handler body raises a member of the BadCommand family."""
+    root = p.func("parse.IMAPClientCommand.parse")
+    out = set()
+    for n in body_walk(root.node):
+        if isinstance(n, ast.Try) and any(isinstance(c, ast.Call) and call_name(c) == "_parse" for s_ in n.body for c in ast.walk(s_)):
+            for h in n.handlers:
+                raises = [x for s_ in h.body for x in walk_no_nested(s_) if isinstance(x, ast.Raise) and x.exc is not None]
+                if not raises or not isinstance(h.body[-1], ast.Raise):
+                    continue
+                nm = (norm(raises[-1].exc.func) if isinstance(raises[-1].exc, ast.Call) else norm(raises[-1].exc)).split(".")[-1]
+                if nm not in fam:
+                    continue
+                if h.type is None:
+                    out.add("BaseException")
+                else:
+                    for t in (h.type.elts if isinstance(h.type, ast.Tuple) else [h.type]):
+                        out.add(norm(t).split(".")[-1])
+    return out
+
+
+INT_MAX_STR_DIGITS = 4300  # sys.int_info.default_max_str_digits: int(str) raises ValueError beyond it
 
 
 def _regex_const(p, name):
@@ -144,8 +211,13 @@ def _in_try_catching(node, fi, names):
     return None
 
 
+_INT_WIDTH: dict[int, int | None] = {}
+
+
 def _discharge_int(p, fi, call):
-    """int(x): x provably a non-empty digit string?"""
+    """int(x): x provably a non-empty digit string?  Side result: _INT_WIDTH[id(call)] = upper bound of the number of
+    digits (None = unbounded/unknown)."""
+    _INT_WIDTH[id(call)] = None
     if not call.args:
         return None
     a = call.args[0]
@@ -173,7 +245,9 @@ def _discharge_int(p, fi, call):
         if pat is None:
             return None
         if grp is not None and isinstance(grp, ast.Constant):
+            _INT_WIDTH[id(call)] = rl.group_max_width(pat, grp.value)
             return f"group {grp.value} of {src.args[0].id} is digits-only" if rl.group_digits_only(pat, grp.value) else None
+        _INT_WIDTH[id(call)] = rl.max_width(pat)
         return f"{src.args[0].id} = /{pat}/ is digits-only" if rl.digits_only(pat) else None
     if isinstance(src, ast.Call) and call_name(src) == "group" and src.args and isinstance(src.args[0], ast.Constant):
         # match.group("year") where match = <re>.match(...) in this function
@@ -183,6 +257,7 @@ def _discharge_int(p, fi, call):
             if isinstance(d, ast.Call) and call_name(d) in ("match", "search", "fullmatch") and isinstance(call_recv(d), ast.Name):
                 pat = _regex_const(p, call_recv(d).id)
                 if pat and rl.group_digits_only(pat, src.args[0].value):
+                    _INT_WIDTH[id(call)] = rl.group_max_width(pat, src.args[0].value)
                     return f"group {src.args[0].value!r} of {call_recv(d).id} is digits-only"
     return None
 
@@ -193,6 +268,22 @@ def r8_1(ctx):
     ctx.require("BadCommand" in fam, "BadCommand family not found")
     graph = parse_graph(p)
     ctx.floor("R8.1", len(graph), 70, "functions reachable from parse()")
+    root_catches = _root_catches(p, fam)
+    root = p.func("parse.IMAPClientCommand.parse")
+    # recursion driven by the input (nested search keys, parenthesised lists): RecursionError must become a BadCommand
+    cyc = [c for c in _cycles({k: v & set(graph) for k, v in PARSE_EDGES.items()}) if all(k.startswith("parse.") for k in c)]
+    ctx.floor("R8.1", len(cyc), 1, "recursive cycles in the parser's call graph")
+    for comp in cyc:
+        names = ", ".join(k.split(".")[-1] for k in comp[:6]) + (" ..." if len(comp) > 6 else "")
+        if root_catches & {"RecursionError", "RuntimeError", "Exception", "BaseException"}:
+            ctx.ok("R8.1", where(root), f"recursive descent ({names}): RecursionError is turned into a BadCommand by parse()")
+        else:
+            ctx.bad(
+                "R8.1", root.module, root.qual, f"recursive descent through {comp[0].split('.')[-1]}",
+                f"the parser recurses as deep as the input nests ({names}): `SEARCH NOT NOT NOT ...` a few thousand deep raises "
+                "RecursionError, which is not a BadCommand - the callers of parse() drop the connection without a reply",
+                root.node.lineno,
+            )
     n_sites = 0
     for key, fi in sorted(graph.items()):
         ctx.analysed(fi)
@@ -247,7 +338,19 @@ def r8_1(ctx):
                 if nm == "int" and isinstance(f, ast.Name):
                     n_sites += 1
                     why = _discharge_int(p, fi, n)
-                    if why:
+                    width = _INT_WIDTH.get(id(n))
+                    if why and fi.module == "parse" and (width is None or width > INT_MAX_STR_DIGITS) and not _in_try_catching(n, fi, {"ValueError"}):
+                        # digits only, but as many as the client likes: int() raises ValueError beyond 4300 digits
+                        if "ValueError" in root_catches or root_catches & {"Exception", "BaseException"}:
+                            ctx.ok("R8.1", where(fi), f"{norm(n, 50)}: {why}; no bound on the number of digits, the ValueError of an over-long number is turned into a BadCommand by parse()")
+                        else:
+                            ctx.bad(
+                                "R8.1", fi.module, fi.qual, norm(n, 100),
+                                f"int() on a digit string of unbounded length ({why}): beyond {INT_MAX_STR_DIGITS} digits int() raises "
+                                "ValueError, which no handler up to parse() turns into a BadCommand - the connection is dropped without a reply",
+                                n.lineno,
+                            )
+                    elif why:
                         ctx.ok("R8.1", where(fi), f"{norm(n, 50)}: {why}")
                     elif _in_try_catching(n, fi, {"ValueError"}):
                         ctx.ok("R8.1", where(fi), f"{norm(n, 50)}: inside try/except ValueError", nontrivial=False)
